@@ -120,3 +120,42 @@ package js_ast
 //@   ensures pow-unit-base-inf-exponent: old(bothNum(e) && e.Op == BinOpPow) && fp.isInf(old(rnum(e))) && fp.eq(fp.abs(old(lnum(e))), 1.0) ==> isNumRes(result) && fp.isNaN(numRes(result))
 //@   ensures pow-inf-exponent: old(bothNum(e) && e.Op == BinOpPow) && fp.isInf(old(rnum(e))) && !fp.isNaN(old(lnum(e))) && !fp.eq(fp.abs(old(lnum(e))), 1.0) ==> isNumRes(result) &&
 //@       same(numRes(result), (fp.gt(fp.abs(old(lnum(e))), 1.0) == fp.isPos(old(rnum(e)))) ? fp.inf() : 0.0)
+
+// ----------------------------------------------------------------------------------------------
+// C09 (F11): "cached ASTs are immutable". Helpers that run after parsing has ended (they are called
+// from the printer and the linker on ASTs shared with the incremental cache) may only write to
+// objects they allocate themselves. The source says so in comments ("intentionally avoids mutating
+// the input AST so it can be called after the AST has been frozen"); here it is a checked frame.
+// The only dynamic call in these helpers is the isUnbound callback (a symbol-table lookup supplied by the
+// parser/printer); it is assumed not to write the AST.
+//@ pure-dynamic HelperContext.isUnbound
+
+//@ func (HelperContext).SimplifyUnusedExpr
+//@   prop C09
+//@   opt frame-only
+//@   opt scenario cached_ast_mutation
+//@   modifies nothing
+
+//@ func TryToInsertOptionalChain
+//@   prop C09
+//@   opt frame-only
+//@   opt scenario cached_ast_mutation
+//@   modifies nothing
+
+//@ func InlinePrimitivesIntoTemplate
+//@   prop C09
+//@   opt frame-only
+//@   opt frame-forbid js_ast_ ast_
+//@   modifies nothing
+
+//@ func MaybeSimplifyNot
+//@   prop C09
+//@   opt frame-only
+//@   opt frame-forbid js_ast_ ast_
+//@   modifies nothing
+
+//@ func (HelperContext).SimplifyBooleanExpr
+//@   prop C09
+//@   opt frame-only
+//@   opt frame-forbid js_ast_ ast_
+//@   modifies nothing
